@@ -6,6 +6,7 @@ from __future__ import annotations
 
 import ast
 import itertools
+import warnings
 
 DEVICE_CLASSES = {"Led", "RGBLed", "Servo", "Buzzer", "DCMotor", "SerialMonitor", "Ultrasonic", "LCD"}
 SET_KEYS = ["rgb_led_names", "buzzer_names", "servo_names", "dc_motor_names", "lcd_names"]     # order of Gen.LineRx guard sets
@@ -87,7 +88,9 @@ def render_shape(c):
 def spec_asg(line):
     """does _handle_assignment_ast take the line?  True / False from CPython's ast; None = not decided here"""
     try:
-        node = ast.parse(line, mode="exec")
+        with warnings.catch_warnings():
+            warnings.simplefilter("ignore")
+            node = ast.parse(line, mode="exec")
     except SyntaxError:
         return False
     except (ValueError, RecursionError, MemoryError):
